@@ -24,6 +24,9 @@ import (
 // ---- C20: interceptors and stats handlers ------------------------------------
 
 type C20Case struct {
+	// ServeCtxEnded (unary, outcomes ok/herr): the context passed to Serve was cancelled before the RPCs; goat keeps
+	// serving the connection, and every interceptor and stats handler must still see every RPC
+	ServeCtxEnded bool `json:"serve_ctx_ended,omitempty"`
 	// Alt: per RPC, whether it calls the second method of its kind ("u2"/"s2") instead of the first; one Server serves both
 	Alt []bool `json:"alt,omitempty"`
 	// LateCancel (unary, outcome ok): the caller's context is cancelled from inside a client stats handler when the reply's
@@ -51,6 +54,9 @@ func genC20(t *rapid.T) C20Case {
 	c.Outcome = rapid.SampledFrom([]string{"ok", "ok", "herr", "cancel", "deadline", "transport", "openfail"}).Draw(t, "outcome")
 	if c.Outcome == "ok" && c.Kind == kit.KindUnary {
 		c.LateCancel = rapid.Bool().Draw(t, "late_cancel")
+	}
+	if c.Kind == kit.KindUnary && (c.Outcome == "ok" || c.Outcome == "herr") {
+		c.ServeCtxEnded = rapid.IntRange(0, 3).Draw(t, "serve_ctx_ended") == 0
 	}
 	if c.Outcome == "herr" {
 		c.HErr = rapid.SampledFrom([]string{"", "", "eof", "wrapped-eof"}).Draw(t, "herr")
@@ -397,6 +403,11 @@ func execC20(t *testing.T, c C20Case) (v Verdict) {
 			return false
 		})
 		cc := w.CC[0]
+		if c.ServeCtxEnded {
+			kit.Settle()
+			w.CancelServeCtx()
+			kit.Settle()
+		}
 		for n := 0; n < c.RPCs; n++ {
 			rel := make(chan struct{})
 			mu.Lock()
@@ -723,6 +734,9 @@ func execC20(t *testing.T, c C20Case) (v Verdict) {
 	labels := []string{"kind=" + kit.KindNames[c.Kind], "outcome=" + c.Outcome, fmt.Sprintf("unread=%v", c.Unread), fmt.Sprintf("chain=%d", len(c.Server)), fmt.Sprintf("cchain=%d", len(c.Client)), fmt.Sprintf("single=%v", c.Single)}
 	if c.LateCancel {
 		labels = append(labels, "late_cancel=true")
+	}
+	if c.ServeCtxEnded {
+		labels = append(labels, "serve_ctx_ended=true")
 	}
 	if c.Outcome == "herr" {
 		labels = append(labels, "handler_error="+map[string]string{"": "status", "eof": "eof", "wrapped-eof": "eof"}[c.HErr])
